@@ -22,7 +22,8 @@ EXPLANATION = (
     "(f) every constructor parameter reaches state or a call; (g) a template field kept as a private deep copy "
     "is used by reset only through copy.deepcopy; (h) no parameter default of an accumulator's methods is a mutable "
     "object (a default is created once and shared by all instances built without that argument).  Does not decide that the aggregate is numerically the "
-    "documented one.")
+    "documented one."    " Added after the eighth round of seeded changes and the second round of behaviour-preserving changes: (j) Vectorize.compute combines the components' compute() results with zip_longest, never zip/map; (k) a generator method of Count never assigns a field after a yield from a read of that field made before the yield (updates made while suspended would be lost)."
+)
 RULES = {
     "C09-j": "COMPONENT-WISE: Vectorize.compute combines the results of its inner accumulators with zip_longest (all of them, padded), "
              "never with a truncating zip",
